@@ -639,6 +639,60 @@ theorem translated_interval_rendering_is_model (tzAware : Bool) (k : Interval.Ki
     (hv : ∀ r ∈ iv, validEp k r.1 = true ∧ validEp k r.2 = true) :
     Gen.TrIv.as_string (modelPrims tzAware) k iv = asString k iv ∧
     Gen.TrIv.as_list (modelPrims tzAware) k iv = (asList iv).map fun r => r.map fun e => e.map Int.ofNat :=
-  ⟨as_string_eq tzAware k iv hv, as_list_eq tzAware k iv⟩
+  ⟨as_string_eq tzAware k iv hv, as_list_eq tzAware k iv hv⟩
+
+open Edzed.Interval Edzed.Gen.TrIv Edzed.IntervalTie in
+/-- `_Interval.range_endpoints` (what TimeDate / TimeSpan register with cron): the set – no duplicates – of all
+    range starts and stops, nothing else -/
+theorem translated_interval_range_endpoints_is_model (tzAware : Bool) (k : Interval.Kind) (iv : List Range) :
+    (Gen.TrIv.range_endpoints (modelPrims tzAware) k iv).Nodup ∧
+    ∀ x, x ∈ Gen.TrIv.range_endpoints (modelPrims tzAware) k iv ↔ x ∈ rangeEndpoints iv :=
+  range_endpoints_eq tzAware k iv
+
+open Edzed.Interval Edzed.Gen.TrIv Edzed.IntervalTie in
+/-- `export_dt` and the module table `_ATTRS`: the exported integers are the model's endpoint tuple (time: hour,
+    minute, second, microsecond; date: month, day; date-time: all seven, year first) -/
+theorem translated_interval_export_dt_is_model (tzAware : Bool) (k : Interval.Kind) {e : Ep}
+    (h : validEp k e = true) :
+    export_dt (modelPrims tzAware) k e = e.map Int.ofNat ∧ dtAttrs k = attrLayout k :=
+  ⟨export_dt_eq tzAware k h, by cases k <;> rfl⟩
+
+open Edzed.Interval Edzed.Gen.TrIv Edzed.IntervalTie in
+/-- consequence for C07: the values returned by the translated `range_endpoints` are exactly the instants at which
+    membership in a time interval can change – between two instants of one day with no returned endpoint in
+    `(t1, t2]` the result of `x in interval` is the same -/
+theorem translated_interval_membership_changes_only_at_range_endpoints (tzAware : Bool) (iv : List Range)
+    {t1 t2 : Ep} (hv : ∀ r ∈ iv, validTime r.1 = true ∧ validTime r.2 = true)
+    (h1 : validTime t1 = true) (h2 : validTime t2 = true) (h12 : timeUs t1 ≤ timeUs t2)
+    (hb : ∀ e ∈ Gen.TrIv.range_endpoints (modelPrims tzAware) .time iv,
+      ¬ (timeUs t1 < timeUs e ∧ timeUs e ≤ timeUs t2)) :
+    Interval.contains .time iv t1 = Interval.contains .time iv t2 := by
+  apply Interval.time_contains_const iv hv h1 h2 h12
+  intro r hr
+  have m := (range_endpoints_eq tzAware .time iv).2
+  have ha : r.1 ∈ rangeEndpoints iv := by
+    simp only [rangeEndpoints, List.mem_flatMap]; exact ⟨r, hr, by simp⟩
+  have hb' : r.2 ∈ rangeEndpoints iv := by
+    simp only [rangeEndpoints, List.mem_flatMap]; exact ⟨r, hr, by simp⟩
+  exact ⟨hb _ ((m _).2 ha), hb _ ((m _).2 hb')⟩
+
+open Edzed.Interval Edzed.Gen.TrIv Edzed.IntervalTie in
+/-- … and conversely every returned value is a start or a stop of some range (nothing is registered in vain) -/
+theorem translated_interval_range_endpoints_are_starts_and_stops (tzAware : Bool) (k : Interval.Kind)
+    (iv : List Range) (x : Ep) (hx : x ∈ Gen.TrIv.range_endpoints (modelPrims tzAware) k iv) :
+    ∃ r ∈ iv, x = r.1 ∨ x = r.2 := by
+  have := ((range_endpoints_eq tzAware k iv).2 x).1 hx
+  simp only [rangeEndpoints, List.mem_flatMap, List.mem_cons, List.not_mem_nil, or_false] at this
+  exact this
+
+open Edzed.Interval Edzed.Gen.TrIv Edzed.IntervalTie in
+/-- non-vacuity: `23:50 – 01:30` and `03:20 – 05:10` have four endpoints; 02:00 and 03:00 lie between them -/
+example : (Gen.TrIv.range_endpoints (modelPrims false) .time
+      [([3, 20, 0, 0], [5, 10, 0, 0]), ([23, 50, 0, 0], [1, 30, 0, 0])]).length = 4 ∧
+    [1, 30, 0, 0] ∈ Gen.TrIv.range_endpoints (modelPrims false) .time
+      [([3, 20, 0, 0], [5, 10, 0, 0]), ([23, 50, 0, 0], [1, 30, 0, 0])] ∧
+    Interval.contains .time [([3, 20, 0, 0], [5, 10, 0, 0]), ([23, 50, 0, 0], [1, 30, 0, 0])] [2, 0, 0, 0] =
+    Interval.contains .time [([3, 20, 0, 0], [5, 10, 0, 0]), ([23, 50, 0, 0], [1, 30, 0, 0])] [3, 0, 0, 0] := by
+  decide
 
 end Edzed.TrTie
